@@ -88,7 +88,7 @@ Fixpoint run_trace (catches : bool) (dirsize : Z) (s : cache cont) (ops : list (
   match ops with
   | [] => []
   | o :: r =>
-      let '(s1, x) := kvs_step cont k_len k_mem dirsize catches s o in
+      let '(s1, x) := kvs_step cont k_len k_mem dirsize ufm_oversize_uncached ufm_uncached_purges catches s o in
       SL [sx_res x; sx_state s1] :: run_trace catches dirsize s1 r
   end.
 
@@ -120,7 +120,7 @@ Fixpoint run_tbl (dirsize : Z) (s : tcache) (ops : list sx) : list sx :=
       match sx_get_zs n, rows_of_sx rows with
       | Some n', Some f =>
           if is_tag "set" t then
-            let '(s1, x) := tbl_set flen fmem dirsize s n' f t1 t2 [] [] in sx_tres x :: run_tbl dirsize s1 r
+            let '(s1, x) := tbl_set flen fmem dirsize ufm_oversize_uncached ufm_uncached_purges s n' f t1 t2 [] [] in sx_tres x :: run_tbl dirsize s1 r
           else [sx_err "tbl-op"]
       | _, _ => [sx_err "tbl-set"]
       end
@@ -128,12 +128,17 @@ Fixpoint run_tbl (dirsize : Z) (s : tcache) (ops : list sx) : list sx :=
       match sx_get_zs n with
       | Some n' =>
           if is_tag "get" t then
-            let '(s1, x) := tbl_get flen fmem dirsize s n' t1 [] in sx_tres x :: run_tbl dirsize s1 r
+            let '(s1, x) := tbl_get flen fmem dirsize ufm_oversize_uncached ufm_uncached_purges s n' t1 [] in sx_tres x :: run_tbl dirsize s1 r
           else [sx_err "tbl-op"]
       | None => [sx_err "tbl-get"]
       end
   | SL [SS t; SZ mx] :: r =>
       if is_tag "reopen" t then sx_w "none" :: run_tbl dirsize (reopen frame s mx) r else [sx_err "tbl-op"]
+  | SL [SS t; SL n] :: r =>
+      match sx_get_zs n with
+      | Some n' => if is_tag "unload" t then sx_w "none" :: run_tbl dirsize (unload_file frame s n') r else [sx_err "tbl-op"]
+      | None => [sx_err "tbl-unload"]
+      end
   | _ :: _ => [sx_err "tbl-shape"]
   end.
 
